@@ -16,6 +16,7 @@ CHECKS = {
     "C13": "pprops",
     "C07": "c07",
     "C08": "c08",
+    "C09": "c09",
     "C15": "c15",
 }
 
